@@ -278,7 +278,15 @@ class SQLiteURLTable(BaseSQLURLTable):
             'sqlite:///{0}'.format(escaped_path), poolclass=SingletonThreadPool)
         sqlalchemy.event.listen(
             self._engine, 'connect', self._apply_pragmas_callback)
-        DBBase.metadata.create_all(self._engine)
+
+        # Create the schema in a single transaction. A process killed while
+        # the tables are being set up must not leave a table behind without
+        # its unique index because create_all() does not add indexes to
+        # tables that already exist.
+        with self._engine.begin() as connection:
+            connection.connection.execute('BEGIN')
+            DBBase.metadata.create_all(connection)
+
         self._session_maker_instance = sessionmaker(bind=self._engine)
 
     @classmethod
